@@ -51,6 +51,7 @@ class SdSimulation():
         self.result_frame = None
         self.finished_simulations_count = 0
         self.name = name
+        self.frozen_until = None  # all equations are memoized for every time step before this time
 
     #rename this to run or to simulate?
     def start(self, start=None, until=None, dt=None, output=["csv", "frame"], equations=[]):
@@ -190,6 +191,31 @@ class SdSimulation():
         elif name in self.mod.equations.keys():
             self.mod.equations[name] = value
             log("[INFO] Changed equation {}".format(name))
+
+    def freeze_history(self, until):
+        """
+        Pin the values of all equations for every time step before the given time. Equations are evaluated lazily,
+        so without this a value of an earlier time step that is only computed later would be computed with
+        constants and points that were changed in the meantime.
+        :param until: time of the step whose settings are about to be applied
+        :return: None
+        """
+        start = self.mod.starttime if self.frozen_until is None else self.frozen_until
+        for t in timerange(start, until, self.mod.dt):
+            for equation in list(self.mod.equations.keys()):
+                try:
+                    self.mod.equation(equation, t)
+                except Exception as e:
+                    log("[WARN] {}: Unable to evaluate equation {} at t={}: {}".format(self.name, equation, t, e))
+        # a stock at the given time is integrated from the values of the previous time step, so it is pinned as well
+        # (not at the start time: there the stock is its initial value, which may depend on the new settings)
+        for equation in list(getattr(self.mod, "stocks", [])) if until > self.mod.starttime else []:
+            try:
+                self.mod.equation(equation, until)
+            except Exception as e:
+                log("[WARN] {}: Unable to evaluate stock {} at t={}: {}".format(self.name, equation, until, e))
+        if self.frozen_until is None or until > self.frozen_until:
+            self.frozen_until = until
 
     def change_points(self, name, value):
         """
